@@ -5,6 +5,8 @@ argument behind the lock-order theorem, progress and termination.  Core Lean onl
 -/
 namespace Rfsm.Locks
 
+set_option linter.unusedSectionVars false
+
 variable {L : Type} [DecidableEq L]
 
 theorem owner_eq_none_iff (s : Sys L) (l : L) :
@@ -60,28 +62,28 @@ theorem getElem?_set_cases {α : Type} {s : List α} {t u : Nat} {a b : α}
     exact Or.inr ⟨fun e => htu e.symm, h⟩
 
 /-- a per-thread predicate that follows the program is an invariant of `step` -/
-theorem step_inv {P : List L → List (Op L) → Prop}
-    (hacq : ∀ held l rest, P held (.acquire l :: rest) → P (l :: held) rest)
-    (hrel : ∀ held l rest, P held (.release l :: rest) → P (held.erase l) rest)
+theorem step_inv {P : Nat → List L → List (Op L) → Prop}
+    (hacq : ∀ u held l rest, P u held (.acquire l :: rest) → P u (l :: held) rest)
+    (hrel : ∀ u held l rest, P u held (.release l :: rest) → P u (held.erase l) rest)
     {s s' : Sys L} {t : Nat} (hs : AllThreads (P) s)
     (h : step s t = some s') : AllThreads (P) s' := by
   obtain ⟨th, hth, hc⟩ := step_cases h
   intro u th' hu
   rcases hc with ⟨l, rest, hp, _, rfl⟩ | ⟨l, rest, hp, rfl⟩
-  · rcases getElem?_set_cases hu with ⟨_, rfl⟩ | ⟨_, hu'⟩
-    · have := hs t th hth
+  · rcases getElem?_set_cases hu with ⟨rfl, rfl⟩ | ⟨_, hu'⟩
+    · have := hs u th hth
       rw [hp] at this
-      exact hacq _ _ _ this
+      exact hacq _ _ _ _ this
     · exact hs u th' hu'
-  · rcases getElem?_set_cases hu with ⟨_, rfl⟩ | ⟨_, hu'⟩
-    · have := hs t th hth
+  · rcases getElem?_set_cases hu with ⟨rfl, rfl⟩ | ⟨_, hu'⟩
+    · have := hs u th hth
       rw [hp] at this
-      exact hrel _ _ _ this
+      exact hrel _ _ _ _ this
     · exact hs u th' hu'
 
-theorem reach_inv {P : List L → List (Op L) → Prop}
-    (hacq : ∀ held l rest, P held (.acquire l :: rest) → P (l :: held) rest)
-    (hrel : ∀ held l rest, P held (.release l :: rest) → P (held.erase l) rest)
+theorem reach_inv {P : Nat → List L → List (Op L) → Prop}
+    (hacq : ∀ u held l rest, P u held (.acquire l :: rest) → P u (l :: held) rest)
+    (hrel : ∀ u held l rest, P u held (.release l :: rest) → P u (held.erase l) rest)
     {init s : Sys L} (hi : AllThreads (P) init)
     (hr : Reach init s) : AllThreads (P) s := by
   induction hr with
@@ -89,14 +91,40 @@ theorem reach_inv {P : List L → List (Op L) → Prop}
   | step _ hstep ih => exact step_inv hacq hrel ih hstep
 
 theorem reach_ordered {lt : L → L → Prop} {init s : Sys L}
-    (hi : AllThreads (Ordered lt) init)
-    (hr : Reach init s) : AllThreads (Ordered lt) s :=
-  reach_inv (fun _ _ _ h => h.2) (fun _ _ _ h => h) hi hr
+    (hi : AllThreads (fun _ => Ordered lt) init)
+    (hr : Reach init s) : AllThreads (fun _ => Ordered lt) s :=
+  reach_inv (fun _ _ _ _ h => h.2) (fun _ _ _ _ h => h) hi hr
 
 theorem reach_balanced {init s : Sys L}
-    (hi : AllThreads (Balanced) init)
-    (hr : Reach init s) : AllThreads (Balanced) s :=
-  reach_inv (fun _ _ _ h => h) (fun _ _ _ h => h) hi hr
+    (hi : AllThreads (fun _ => Balanced) init)
+    (hr : Reach init s) : AllThreads (fun _ => Balanced) s :=
+  reach_inv (fun _ _ _ _ h => h) (fun _ _ _ _ h => h) hi hr
+
+/-- the invariant behind the lock-order theorem with private locks -/
+def InvP (lt : L → L → Prop) (pv : L → Option Nat) (u : Nat) (held : List L)
+    (prog : List (Op L)) : Prop :=
+  HeldOk pv u held ∧ OrderedP lt pv u held prog
+
+theorem reach_invP {lt : L → L → Prop} {pv : L → Option Nat} {init s : Sys L}
+    (hi : AllThreads (InvP lt pv) init) (hr : Reach init s) : AllThreads (InvP lt pv) s := by
+  refine reach_inv ?_ ?_ hi hr
+  · intro u held l rest h
+    refine ⟨?_, h.2.2.2⟩
+    intro x hx
+    rcases List.mem_cons.1 hx with rfl | hx
+    · exact h.2.1
+    · exact h.1 x hx
+  · intro u held l rest h
+    exact ⟨fun x hx => h.1 x (List.mem_of_mem_erase hx), h.2⟩
+
+/-- plain order discipline is the special case without private locks -/
+theorem orderedP_of_ordered {lt : L → L → Prop} (u : Nat) :
+    ∀ (prog : List (Op L)) (held : List L), Ordered lt held prog →
+      OrderedP lt (fun _ => none) u held prog
+  | [], _, _ => trivial
+  | .acquire l :: rest, held, h =>
+    ⟨Or.inl rfl, fun x hx => Or.inl (h.1 x hx), orderedP_of_ordered u rest (l :: held) h.2⟩
+  | .release l :: rest, held, h => orderedP_of_ordered u rest (held.erase l) h
 
 theorem reach_trans {a b c : Sys L} (h1 : Reach a b) (h2 : Reach b c) : Reach a c := by
   induction h2 with
@@ -184,15 +212,12 @@ theorem waitsFor_some {s : Sys L} {t : Nat} {l : L} (h : waitsFor s t = some l) 
   · simp at h
 
 /-- **the core of the lock-order theorem**: in a state where every thread respects a strict order
-on the locks (acquires only above everything it holds) there is no deadlocked set. -/
-theorem ordered_state_no_deadlock {lt : L → L → Prop} (hirr : ∀ a, ¬ lt a a)
+on the locks (acquires only above everything it holds, private locks excepted) there is no
+deadlocked set — not even a one-element one (self-deadlock). -/
+theorem invP_state_no_deadlock {lt : L → L → Prop} {pv : L → Option Nat} (hirr : ∀ a, ¬ lt a a)
     (htr : ∀ a b c, lt a b → lt b c → lt a c) {s : Sys L}
-    (hord : AllThreads (Ordered lt) s) : ¬ Deadlock s := by
+    (hinv : AllThreads (InvP lt pv) s) : ¬ Deadlock s := by
   rintro ⟨S, hne, hS⟩
-  -- the awaited lock of each member of S
-  have hw : ∀ t ∈ S, ∃ l, waitsFor s t = some l := fun t ht => by
-    obtain ⟨l, hl, _⟩ := hS t ht
-    exact ⟨l, hl⟩
   -- order the members by their awaited locks
   let ltT : Nat → Nat → Prop := fun a b =>
     ∃ la lb, waitsFor s a = some la ∧ waitsFor s b = some lb ∧ lt la lb
@@ -209,15 +234,38 @@ theorem ordered_state_no_deadlock {lt : L → L → Prop} (hirr : ∀ a, ¬ lt a
     subst h4
     exact ⟨la, lc, h1, h5, htr _ _ _ h3 h6⟩
   obtain ⟨m, hm, hmax⟩ := exists_maximal ltT hirrT htrT S hne
+  -- m waits for l, held by u, who waits for l'
   obtain ⟨l, hl, u, hu, thu, hthu, hlu⟩ := hS m hm
   obtain ⟨l', hl', _⟩ := hS u hu
   obtain ⟨thu', rest, hthu', hp⟩ := waitsFor_some hl'
   rw [hthu] at hthu'
   injection hthu' with e
   subst e
-  have ho := hord u thu hthu
-  rw [hp] at ho
-  exact hmax u hu ⟨l, l', hl, hl', ho.1 l hlu⟩
+  have hou := (hinv u thu hthu).2
+  rw [hp] at hou
+  rcases hou.2.1 l hlu with hlt | ⟨hpriv, hneq⟩
+  · -- l is below what its holder waits for: the holder is above the maximal member
+    exact hmax u hu ⟨l, l', hl, hl', hlt⟩
+  · -- l is private to its holder u, yet m is about to acquire it: m = u, so l = l'
+    obtain ⟨thm, restm, hthm, hpm⟩ := waitsFor_some hl
+    have hom := (hinv m thm hthm).2
+    rw [hpm] at hom
+    rcases hom.1 with hnone | hsome
+    · rw [hnone] at hpriv
+      cases hpriv
+    · rw [hsome] at hpriv
+      injection hpriv with hmu
+      subst hmu
+      rw [hl] at hl'
+      injection hl' with hll
+      exact hneq hll
+
+theorem ordered_state_no_deadlock {lt : L → L → Prop} (hirr : ∀ a, ¬ lt a a)
+    (htr : ∀ a b c, lt a b → lt b c → lt a c) {s : Sys L}
+    (hord : AllThreads (fun _ => Ordered lt) s) : ¬ Deadlock s := by
+  apply invP_state_no_deadlock (pv := fun _ => none) hirr htr
+  intro u th hth
+  exact ⟨fun _ _ => Or.inl rfl, orderedP_of_ordered u _ _ (hord u th hth)⟩
 
 theorem deadlockedSet_sound {s : Sys L} {S : List Nat} (h : deadlockedSet s S = true) :
     Deadlock s := by
@@ -285,7 +333,7 @@ theorem mem_unfinishedIdx {s : Sys L} {t : Nat} :
 
 /-- if every thread is balanced, a state in which no unfinished thread can move is a deadlock -/
 theorem stuck_is_deadlock {s : Sys L}
-    (hbal : AllThreads (Balanced) s)
+    (hbal : AllThreads (fun _ => Balanced) s)
     (hun : unfinished s) (hstuck : ∀ t, step s t = none) : Deadlock s := by
   obtain ⟨t0, th0, hth0, hp0⟩ := hun
   refine ⟨(List.range s.length).filter (fun i => match s[i]? with
